@@ -122,6 +122,42 @@ pub fn run(args: &Args) -> i32 {
             ],
             strategy: StratSpec::ActorOrder(vec![1, 2]),
         },
+        // race: key index, an update wins (rows move, row ids kept), merge_insert naming a moved key is re-executed
+        "retry_mi_after_update" => HistorySpec {
+            name: "probe-retry-mi-after-update".into(), stable_row_ids: stable, v2_manifest_paths: false, frags: 3, rows_per_frag: 4,
+            pre_ops: vec![Op::CreateIndex { col: "id", name: "idx".into() }],
+            actors: vec![
+                (2, Op::Update { pred: IdPred::In(vec![2, 7, 8, 11]), add: 1, set_w: Some(14), retries: None }),
+                (if args.extra.contains_key("fresh") { 99 } else { 2 }, Op::Merge { ids: vec![0, 1, 4, 7], salt: 99, insert: false, retries: None }),
+            ],
+            strategy: StratSpec::ActorOrder(vec![1, 2]),
+        },
+        // the C04 seed-3 case 1607 history with a fixed actor order
+        "retry_mi_after_two_updates" => HistorySpec {
+            name: "probe-retry-mi-after-two-updates".into(), stable_row_ids: stable, v2_manifest_paths: false, frags: 3, rows_per_frag: 4,
+            pre_ops: vec![
+                Op::CreateIndex { col: "id", name: "idx".into() },
+                Op::Append { ids: vec![8796093022208], salt: 77 },
+            ],
+            actors: vec![
+                (3, Op::Update { pred: IdPred::In(vec![1, 2, 3, 8, 9, 11]), add: 2, set_w: None, retries: None }),
+                (if args.extra.contains_key("seq") { 4 } else { 3 }, Op::Update { pred: IdPred::In(vec![2, 7, 8, 11]), add: 1, set_w: Some(14), retries: None }),
+                (if args.extra.contains_key("seq") { 5 } else { 3 }, Op::Merge { ids: vec![0, 1, 4, 7], salt: 99, insert: false, retries: None }),
+            ],
+            strategy: StratSpec::ActorOrder(vec![1, 2, 3]),
+        },
+        // sequential control of the above: both updates are setup ops, the merge_insert runs on a fresh handle
+        "mi_after_two_updates_seq" => HistorySpec {
+            name: "probe-mi-after-two-updates-seq".into(), stable_row_ids: stable, v2_manifest_paths: false, frags: 3, rows_per_frag: 4,
+            pre_ops: vec![
+                Op::CreateIndex { col: "id", name: "idx".into() },
+                Op::Append { ids: vec![8796093022208], salt: 77 },
+                Op::Update { pred: IdPred::In(vec![1, 2, 3, 8, 9, 11]), add: 2, set_w: None, retries: None },
+                Op::Update { pred: IdPred::In(vec![2, 7, 8, 11]), add: 1, set_w: Some(14), retries: None },
+            ],
+            actors: vec![(5, Op::Merge { ids: vec![0, 1, 4, 7], salt: 99, insert: false, retries: None })],
+            strategy: StratSpec::ActorOrder(vec![1]),
+        },
         _ => {
             eprintln!("unknown probe");
             return 2;
